@@ -362,7 +362,11 @@ func genDrawing(r *simrt.Rand, l latticeCfg, nfonts int) *Drawing {
 var formats = []string{"pdf", "svg", "ps", "eps", "png"}
 
 func genRenderStep(r *simrt.Rand, l latticeCfg, nfonts int) Step {
-	return Step{Op: "render", Draw: genDrawing(r, l, nfonts), Format: formats[r.Intn(len(formats))], Opt: r.Intn(8)}
+	st := Step{Op: "render", Draw: genDrawing(r, l, nfonts), Format: formats[r.Intn(len(formats))], Opt: r.Intn(8)}
+	if r.Bool(0.1) {
+		st.FailAt = 1 + r.Intn(12) // disk full / EIO on the k-th write of the renderer
+	}
+	return st
 }
 
 // ---- runs -----------------------------------------------------------------------------------
